@@ -29,3 +29,25 @@ Theorem ntriples_is_graphless : forall cfg fe rl r l, c_nquads cfg = false -> fi
                 forall r', In r' l -> rget col_triple r' = Some (s ++ [32%N] ++ p ++ [32%N] ++ o).
 Proof. exact finish_ntriples. Qed.
 Print Assumptions ntriples_is_graphless.
+
+From Coq Require Import String.
+From Morph Require Import Model.Spec Model.Fragment Proofs.TemplateP Proofs.TermP Proofs.RowSpecP Proofs.DocSpecP Proofs.DocEngineP Proofs.FormatP.
+Local Open Scope N_scope.
+(* the two output formats, for the generation rules on every document and every table: the N-TRIPLES result is exactly
+   the graph-less projection of the N-QUADS result *)
+Theorem rules_ntriples_is_projection_of_nquads : forall c fe doc tables,
+  (forall x, In x (spec_lines (with_nq false c) fe doc tables) -> exists g, In (x ++ [32] ++ g) (spec_lines (with_nq true c) fe doc tables)) /\
+  (forall y, In y (spec_lines (with_nq true c) fe doc tables) -> exists x g, y = x ++ [32] ++ g /\ In x (spec_lines (with_nq false c) fe doc tables)).
+Proof. exact spec_ntriples_is_projection. Qed.
+Print Assumptions rules_ntriples_is_projection_of_nquads.
+(* and for the engine, on documents of constant / reference / template maps (through the end-to-end theorem of C01) *)
+Theorem engine_ntriples_is_projection_of_nquads : forall cfg fe scfg raw d0 rules lt lq,
+  cfg_agree cfg scfg -> s_na scfg = c_na cfg ->
+  forallb plain_tm d0 = true -> normalise d0 = Ok rules -> (forall rl, In rl rules -> simple_rule rl) ->
+  (forall rl rw n, In rl rules -> In rw (raw (r_src rl)) -> In n (rule_names rl) -> assoc n rw <> None) ->
+  materialize_rules (with_cnq false cfg) fe rules (delivered (with_cnq false cfg) raw) = Ok lt ->
+  materialize_rules (with_cnq true cfg) fe rules (delivered (with_cnq true cfg) raw) = Ok lq ->
+  (forall x, In x lt -> exists g, In (x ++ [32] ++ g) lq) /\
+  (forall y, In y lq -> exists x g, y = x ++ [32] ++ g /\ In x lt).
+Proof. exact engine_ntriples_is_projection. Qed.
+Print Assumptions engine_ntriples_is_projection_of_nquads.
